@@ -61,7 +61,29 @@ theorem pgStep_comment (t : Tok) (ht : t.typ = .comment) (s : PgSt) (rest : List
 /-- what a spelled page selector must satisfy -/
 structure PageSelWF (sel : SPageSel) : Prop where
   nameOk : ∀ n, sel.name = some n → SafeVal n ∧ normalize n ≠ CssVerif.Proto.cps "auto"
-  pseudoOk : ∀ p, sel.pseudo = some p → SafeVal p
+  /-- `first` / `left` / `right` in any spelling, or any other ident exactly as the abstract sheet has it -/
+  pseudoOk : ∀ p, sel.pseudo = some p →
+    (NameOk p ∧ knownPseudo.contains p = true) ∨
+    (sel.pseudoSp = [] ∧ SafeVal p ∧ knownPseudo.contains (normalize p) = false)
+
+theorem spell_nil (n : Cps) : spell [] n = n := by
+  induction n with
+  | nil => rfl
+  | cons c t ih => simp only [spell, CssVerif.Normalize.spell] at ih ⊢; rw [ih]
+
+/-- the stored pseudo-page name of a spelled one is the abstract one -/
+theorem pagePseudo_spell (sel : SPageSel) (h : PageSelWF sel) (p : Cps) (hp : sel.pseudo = some p) :
+    pagePseudo (spell sel.pseudoSp p) = p ∧ SafeVal (spell sel.pseudoSp p) := by
+  rcases h.pseudoOk p hp with ⟨hn, hk⟩ | ⟨hm, hs, hk⟩
+  · refine ⟨?_, spell_safe p _ hn⟩
+    unfold pagePseudo
+    rw [normalize_spell p _ hn, hk]
+    rfl
+  · rw [hm, spell_nil]
+    refine ⟨?_, hs⟩
+    unfold pagePseudo
+    rw [hk]
+    rfl
 
 /-- `__parseSelectorText` on `g0 sel g1` -/
 theorem pageSelector_render (g0 : Gap) (sel : SPageSel) (g1 : Gap) (h : PageSelWF sel) :
@@ -76,12 +98,14 @@ theorem pageSelector_render (g0 : Gap) (sel : SPageSel) (g1 : Gap) (h : PageSelW
     obtain ⟨a, b, c⟩ := pgLoop_gap (Gap.toks g1) (gapL_toks g1).isGap s
     simp [a, b, c, hs]
   have hpseudo : ∀ (s : PgSt) (p : Cps), s.wf = true → s.lastS = false → (s.exp = .page ∨ s.exp = .colonOrEof) →
-      s.pseudo = none →
-      (let s' := parseLoop pgStep s ([colonTok, identTok p] ++ Gap.toks g1);
+      s.pseudo = none → sel.pseudo = some p →
+      (let s' := parseLoop pgStep s ([colonTok, identTok (spell sel.pseudoSp p)] ++ Gap.toks g1);
         (if s'.wf then some (⟨s'.name, s'.pseudo⟩ : PageSel) else none)) = some ⟨s.name, some p⟩ := by
-    intro s p hw hl he hp
-    have e : pgStep s colonTok (identTok p :: Gap.toks g1) = ({ s with pseudo := some p, exp := .eof }, Gap.toks g1) := by
-      simp [pgStep, colonTok, charTok, identTok, hl, he, vColon]
+    intro s p hw hl he hp hsp
+    have hpp := (pagePseudo_spell sel h p hsp).1
+    have e : pgStep s colonTok (identTok (spell sel.pseudoSp p) :: Gap.toks g1) =
+        ({ s with pseudo := some p, exp := .eof }, Gap.toks g1) := by
+      simp [pgStep, colonTok, charTok, identTok, hl, he, vColon, hpp]
     simp only [List.cons_append, List.nil_append]
     rw [pgLoop_cons, e]
     exact hfin _ hw
@@ -93,7 +117,7 @@ theorem pageSelector_render (g0 : Gap) (sel : SPageSel) (g1 : Gap) (h : PageSelW
       exact hfin {} rfl
     | some p =>
       simp only [SPageSel.toks, hn, hp, List.nil_append]
-      exact hpseudo {} p rfl rfl (Or.inl rfl) rfl
+      exact hpseudo {} p rfl rfl (Or.inl rfl) rfl hp
   | some n =>
     obtain ⟨_, hauto⟩ := h.nameOk n hn
     have e1 : ∀ rest, pgStep {} (identTok n) rest = ({ name := some n, exp := .colonOrEof }, rest) := by
@@ -118,7 +142,7 @@ theorem pageSelector_render (g0 : Gap) (sel : SPageSel) (g1 : Gap) (h : PageSelW
       rw [pgLoop_cons, e1]
       simp only
       rw [hmid]
-      exact hpseudo _ p rfl rfl (Or.inr rfl) rfl
+      exact hpseudo _ p rfl rfl (Or.inr rfl) rfl hp
 
 /-- the tokens of a page selector never interest `_tokensupto2` -/
 theorem pageSel_flat (sel : SPageSel) (h : PageSelWF sel) (m : Mode) (hm : m = .default ∨ m = .blockstart) :
@@ -144,7 +168,7 @@ theorem pageSel_flat (sel : SPageSel) (h : PageSelWF sel) (m : Mode) (hm : m = .
       simp only [hp, List.mem_cons, List.mem_nil_iff, or_false] at ht
       rcases ht with rfl | rfl
       · exact hcol
-      · exact hid p (h.pseudoOk p hp)
+      · exact hid _ (pagePseudo_spell sel h p hp).2
 
 /-! ## margin boxes -/
 
